@@ -202,6 +202,11 @@ func genBatch(r *kit.Rec) func(t *rapid.T) BatchCase {
 					desc = false
 				}
 			}
+			if constrainFile && len(gfiles) > 1 && desc {
+				// every file must start at the common start: ascending rows, so that the first row is the earliest
+				excl(exPerFile)
+				desc = false
+			}
 			fileStart := start
 			if fi > 0 && gf.StartOff != 0 {
 				if constrainFile {
@@ -369,6 +374,9 @@ func (f BFile) build() ([]edge.BufferedBatchMessage, error) {
 	}
 	return out, nil
 }
+
+// unsetTime is what kit.BtOf reports for the zero time.Time.
+var unsetTime = time.Time{}.UnixNano()
 
 func fmtBt(b kit.Bt) string {
 	var sb strings.Builder
@@ -561,7 +569,13 @@ func batchCore(c BatchCase, cc *kit.Case) (string, string) {
 			if len(gb.Points) != len(rb.Points) {
 				return fail("replay/batch/point-count", "file %d batch %d: %d points recorded, %d delivered\nrecorded %s\ndelivered %s", i, j, len(rb.Points), len(gb.Points), fmtBt(rb), fmtBt(gb))
 			}
-			deltas = append(deltas, delta{i, j, -1, gb.TMax - rb.TMax})
+			if rb.TMax == unsetTime {
+				// an empty series of "record query" has no tmax at all (zero time.Time); the replay gives such a batch
+				// the tmax of the batch before it ("Set tmax to last batch if not set"): nothing to compare
+				label("empty-batch-without-tmax")
+			} else {
+				deltas = append(deltas, delta{i, j, -1, gb.TMax - rb.TMax})
+			}
 			for k, rp := range rb.Points {
 				gp := gb.Points[k]
 				if !sameTags(gp.Tags, rp.Tags) {
